@@ -431,27 +431,33 @@ Lemma defaults_proof : 0 < cfg_default_stack_size < 4294967296 /\ 0 < cfg_defaul
 Proof. vm_compute. repeat split; intros; discriminate. Qed.
 
 (* ------------------------------------------------------------------ non-vacuity / boundary examples *)
+Definition NL (z : Z) : N := Z.to_N z.
+
 Lemma examples_proof :
-  accepts_matches 1000000 = true /\ accepts_matches 1000001 = false /\
+  accepts_matches (NL YR_MAX_STRING_MATCHES) = true /\ accepts_matches (NL (YR_MAX_STRING_MATCHES + 1)) = false /\
   accepts_vm_stack 4 4 = true /\ accepts_vm_stack 4 5 = false /\ accepts_vm_stack 0 1 = false /\
-  accepts_splits 128 = true /\ accepts_splits 129 = false /\
-  accepts_fibers 1024 = true /\ accepts_fibers 1025 = false /\
-  accepts_loops 4 = true /\ accepts_loops 5 = false /\
-  accepts_strings 10000 10000 = true /\ accepts_strings 10000 10001 = false /\ accepts_strings 0 1 = false /\
-  accepts_includes 16 = true /\ accepts_includes 17 = false /\
-  lex_rejects 8190 0 = false /\ lex_rejects 8191 0 = true /\
+  accepts_vm_stack cfg_default_stack_size (NL cfg_default_stack_size) = true /\
+  accepts_vm_stack cfg_default_stack_size (NL (cfg_default_stack_size + 1)) = false /\
+  accepts_splits (NL RE_MAX_SPLIT_ID) = true /\ accepts_splits (NL (RE_MAX_SPLIT_ID + 1)) = false /\
+  accepts_fibers (NL RE_MAX_FIBERS) = true /\ accepts_fibers (NL (RE_MAX_FIBERS + 1)) = false /\
+  accepts_loops (NL YR_MAX_LOOP_NESTING) = true /\ accepts_loops (NL (YR_MAX_LOOP_NESTING + 1)) = false /\
+  accepts_strings cfg_default_max_strings_per_rule (NL cfg_default_max_strings_per_rule) = true /\
+  accepts_strings cfg_default_max_strings_per_rule (NL (cfg_default_max_strings_per_rule + 1)) = false /\
+  accepts_strings 0 1 = false /\
+  accepts_includes (NL YR_MAX_INCLUDE_DEPTH) = true /\ accepts_includes (NL (YR_MAX_INCLUDE_DEPTH + 1)) = false /\
+  lex_rejects (YR_LEX_BUF_SIZE - 2) 0 = false /\ lex_rejects (YR_LEX_BUF_SIZE - 1) 0 = true /\
   ident_rejects 128 = false /\ ident_rejects 129 = true /\
   int_literal 9223372036854775807 SNone = Some 9223372036854775807 /\ int_literal 9223372036854775808 SNone = None /\
   int_literal 9007199254740991 SKB = Some 9223372036854774784 /\ int_literal 9007199254740992 SKB = None /\
-  re_range_rejects 32767 = false /\ re_range_rejects 32768 = true.
+  re_range_rejects RE_MAX_RANGE = false /\ re_range_rejects (RE_MAX_RANGE + 1) = true.
 Proof. vm_compute. repeat split; reflexivity. Qed.
 
 Lemma scan_examples_proof :
-  scan_all_match true 600001 = (600001, 0, false, ERROR_SUCCESS) /\
-  scan_all_match true 600002 = (600002, 0, true, ERROR_SUCCESS) /\
-  scan_all_match true 1000000 = (1000000, 0, false, ERROR_SUCCESS) /\
-  scan_all_match true 1000001 = (1000000, 1, false, ERROR_SUCCESS) /\
-  scan_all_match false 1000001 = (1000000, 1, false, ERROR_TOO_MANY_MATCHES).
+  scan_all_match true (NL (YR_SLOW_STRING_MATCHES + 1)) = (YR_SLOW_STRING_MATCHES + 1, 0, false, ERROR_SUCCESS) /\
+  scan_all_match true (NL (YR_SLOW_STRING_MATCHES + 2)) = (YR_SLOW_STRING_MATCHES + 2, 0, true, ERROR_SUCCESS) /\
+  scan_all_match true (NL YR_MAX_STRING_MATCHES) = (YR_MAX_STRING_MATCHES, 0, false, ERROR_SUCCESS) /\
+  scan_all_match true (NL (YR_MAX_STRING_MATCHES + 1)) = (YR_MAX_STRING_MATCHES, 1, false, ERROR_SUCCESS) /\
+  scan_all_match false (NL (YR_MAX_STRING_MATCHES + 1)) = (YR_MAX_STRING_MATCHES, 1, false, ERROR_TOO_MANY_MATCHES).
 Proof. vm_compute. repeat split; reflexivity. Qed.
 
 Lemma isolation_example_proof :
